@@ -369,8 +369,14 @@ def gen(prop, stream, tier, avoid):
                 op["i"] = rng.randint(0, 26)
             elif h == "linspace":
                 a = rng.dyadic(-8, 8, 8)
+                if rng.chance(0.3):
+                    a = rng.randint(-99, 99) / 100.0        # decimal end points (0.1, 0.08, ...): (k * delta) / k is not always delta
                 op["start"] = a
                 op["stop"] = a + rng.randint(1, 64) / 8.0
+                if rng.chance(0.3):
+                    op["stop"] = rng.randint(-99, 199) / 100.0
+                    if op["stop"] == a:
+                        op["stop"] = a + 1.0
                 op["num"] = rng.randint(2, 40)
                 if rng.chance(0.25):
                     # a short interval (a parametric range in small units), possibly descending
@@ -699,6 +705,9 @@ def run(script, ctx):
         elif k == "linspace":
             a, b, num = op["start"], op["stop"], op["num"]
             ex = [a + (b - a) * t / (num - 1) for t in range(num)]
+            lo_, hi_ = min(a, b) - 1e-18, max(a, b) + 1e-18      # (the samples are rounded to the documented 18 decimals)
+            if len(res) == num and any(not (lo_ <= x <= hi_) for x in res):
+                ctx.fail("wrong_result", "linspace(%r,%r,%d) leaves the interval: %r" % (a, b, num, [x for x in res if not (lo_ <= x <= hi_)][:3]), **sig)
             if len(res) != num or any(abs(x - y) > 1e-9 * max(abs(b - a), 1e-9 * max(1.0, abs(a), abs(b))) for x, y in zip(res, ex)):
                 ctx.fail("wrong_result", "linspace(%r,%r,%d) = %r" % (a, b, num, res), **sig)
         ctx.state("%s:%s" % (k, mclass))
